@@ -1,5 +1,5 @@
 import RP.Lemmas.C01.Table
-/-! consequences of the table on classes: model result = rules value (coarsened on flushes) -/
+/-! consequences of the table on classes: model result = rules value -/
 namespace RP.C01
 open RP.Bits RP.Eval RP.Spec.Poker
 
@@ -28,32 +28,32 @@ theorem rowF_of_valid (cfg : Cfg) (F : Nat) (h1 : F < 2^13) (h2 : 5 ≤ popW 13 
 /-- with a flush suit the evaluator looks at nothing else -/
 theorem evalA?_flush (cfg : Cfg) (cv rk F : Nat) : evalA? cfg ⟨cv, rk, some F⟩ = evalA? cfg ⟨0, 0, some F⟩ := by
   have nk8 : RP.Gen.nKickers[cStraightFlush]?.getD 0 = 0 := by decide
-  have nk6 : RP.Gen.nKickers[cFlush]?.getD 0 = 0 := by decide
+  have c8 : cStraightFlush ∉ RP.Gen.C01.flushKickerCats := by decide
+  have c6 : cFlush ∈ RP.Gen.C01.flushKickerCats := by decide
   simp only [evalA?, findRanking?, findFlush]
-  cases findStraight cfg F <;> simp [Option.orElse, findKickers?, nk8, nk6]
+  cases findStraight cfg F <;> simp [Option.orElse, findKickers?, flushKickers?, nk8, c8, c6]
 
 theorem evalA_flush (cfg : Cfg) (cv rk F : Nat) : evalA cfg ⟨cv, rk, some F⟩ = evalF cfg F := by
   simp only [evalA, evalF, evalA?_flush cfg cv rk F]
 
 /-- **the table on classes**: on every valid class the evaluator succeeds, its result is
-    well-formed, and translated into the value space of the rules it is the rules' value of the
-    class — except that a (non-straight) flush keeps its top card only -/
+    well-formed, and translated into the value space of the rules it is the rules' value of the class -/
 theorem table_cls (cfg : Cfg) (c : Cls) (hv : ValidCls c) :
-    (evalA? cfg c).isSome = true ∧ wfRes (evalA cfg c) = true ∧ specOf cfg (evalA cfg c) = coarse cfg (specA cfg c) := by
+    (evalA? cfg c).isSome = true ∧ wfRes (evalA cfg c) = true ∧ specOf cfg (evalA cfg c) = specA cfg c := by
   have hN := rowN_of_valid cfg c.cv hv.cv hv.lo hv.hi
   simp only [rowN, Bool.and_eq_true, beq_iff_eq, Bool.or_eq_true, decide_eq_true_eq] at hN
-  obtain ⟨⟨⟨⟨n1, n2⟩, n3⟩, n4⟩, n5⟩ := hN
+  obtain ⟨⟨⟨n1, n2⟩, n3⟩, n5⟩ := hN
   have hrk := hv.rk
   have hfl := hv.fl
   obtain ⟨cv, rk, fl⟩ := c
-  simp only at n1 n2 n3 n4 n5 hrk hfl
+  simp only at n1 n2 n3 n5 hrk hfl
   cases fl with
   | none =>
     have e : (⟨cv, rk, none⟩ : Cls) = clsN cv := by rw [hrk]; rfl
     rw [e]
     refine ⟨n1, n3, ?_⟩
     have e2 : specA cfg (clsN cv) = specN cfg cv := rfl
-    rw [e2, n4, n2]
+    rw [e2, n2]
   | some F =>
     obtain ⟨f1, f2, f3, f4⟩ := hfl F rfl
     have hF := rowF_of_valid cfg F f1 f2 f3
@@ -72,44 +72,11 @@ theorem table_cls (cfg : Cfg) (c : Cls) (hv : ValidCls c) :
     · rw [evalA_flush]; exact g3
     · rw [evalA_flush, hA]; exact g2
 
-/-- two values the engine cannot tell apart although the rules can: non-straight flushes with
-    the same top card and different lower cards -/
-def FlushTie (cfg : Cfg) (v1 v2 : Nat) : Prop :=
-  v1 / 16^5 = Cat.flush.pos (Cfg.isShort cfg) ∧ v2 / 16^5 = Cat.flush.pos (Cfg.isShort cfg) ∧ v1 / 16^4 = v2 / 16^4 ∧ v1 ≠ v2
-
-theorem coarse_compare (cfg : Cfg) (v1 v2 : Nat) (h : ¬ FlushTie cfg v1 v2) :
-    compare (coarse cfg v1) (coarse cfg v2) = compare v1 v2 := by
-  simp only [FlushTie, Nat.reducePow] at h
-  simp only [coarse, Nat.reducePow]
-  generalize Cat.flush.pos (Cfg.isShort cfg) = p at *
-  rcases Nat.lt_trichotomy v1 v2 with hlt | heq | hgt
-  · rw [Nat.compare_eq_lt.mpr hlt, Nat.compare_eq_lt]
-    split <;> split <;> omega
-  · subst heq; simp
-  · rw [Nat.compare_eq_gt.mpr hgt, Nat.compare_eq_gt]
-    split <;> split <;> omega
-
-theorem coarse_tie (cfg : Cfg) (v1 v2 : Nat) (h : FlushTie cfg v1 v2) : coarse cfg v1 = coarse cfg v2 := by
-  simp only [FlushTie, Nat.reducePow] at h
-  simp only [coarse, Nat.reducePow]
-  obtain ⟨a, b, c, _⟩ := h
-  rw [a, b]
-  simp [c]
-
-/-- order on valid classes = order of the rules' values, unless they form a flush tie -/
-theorem order_cls (cfg : Cfg) (c1 c2 : Cls) (h1 : ValidCls c1) (h2 : ValidCls c2)
-    (hn : ¬ FlushTie cfg (specA cfg c1) (specA cfg c2)) :
+/-- **order on valid classes = order of the rules' values** -/
+theorem order_cls (cfg : Cfg) (c1 c2 : Cls) (h1 : ValidCls c1) (h2 : ValidCls c2) :
     compare (keyA cfg (evalA cfg c1)) (keyA cfg (evalA cfg c2)) = compare (specA cfg c1) (specA cfg c2) := by
   obtain ⟨_, w1, e1⟩ := table_cls cfg c1 h1
   obtain ⟨_, w2, e2⟩ := table_cls cfg c2 h2
-  rw [key_order cfg _ _ w1 w2, e1, e2, coarse_compare cfg _ _ hn]
-
-theorem tie_cls (cfg : Cfg) (c1 c2 : Cls) (h1 : ValidCls c1) (h2 : ValidCls c2)
-    (ht : FlushTie cfg (specA cfg c1) (specA cfg c2)) :
-    compare (keyA cfg (evalA cfg c1)) (keyA cfg (evalA cfg c2)) = .eq := by
-  obtain ⟨_, w1, e1⟩ := table_cls cfg c1 h1
-  obtain ⟨_, w2, e2⟩ := table_cls cfg c2 h2
-  rw [key_order cfg _ _ w1 w2, e1, e2, coarse_tie cfg _ _ ht]
-  simp
+  rw [key_order cfg _ _ w1 w2, e1, e2]
 
 end RP.C01
